@@ -9,7 +9,8 @@
 //! traversal hides, e.g. reserved words).  A table whose layout is lost is abandoned from that field on
 //! (counted), so a wrong guess can only waste a mutant, never fake one.
 //!
-//! Mutants: one located field at a time set to 0, 1, MAX-1, MAX, 0x7F.., 0x80.. of its width.  Quick
+//! Mutants: one located field at a time set to 0, 1, MAX-1, MAX, 0x7F.., 0x80.. of its width (plus 0x0F / 0xF0
+//! for bytes and 0x00FF / 0xFF00 for 16-bit fields: bit-packed formats).  Quick
 //! tier: a deterministic sample per top-level table that prefers count / size / index / format fields;
 //! thorough tier: (nearly) all located fields.  Each mutant runs the consumers of its table
 //! (`Groups::for_table`; all consumers in the thorough tier) through `explore::exercise_groups`.
@@ -356,7 +357,14 @@ fn extremes(width: usize) -> Vec<u64> {
     let bits = 8 * width as u32;
     let max = if bits == 64 { u64::MAX } else { (1u64 << bits) - 1 };
     let mid = max >> 1;
-    vec![0, 1, max - 1, max, mid, mid + 1]
+    let mut v = vec![0, 1, max - 1, max, mid, mid + 1];
+    // bit-packed fields (entry formats, flag bytes): the extremes of each nibble / byte lane
+    match width {
+        1 => v.extend([0x0F, 0xF0]),
+        2 => v.extend([0x00FF, 0xFF00]),
+        _ => {}
+    }
+    v
 }
 
 struct Job<'a> {
@@ -437,7 +445,8 @@ pub fn run(cfg: &Config, ex: &mut Explorer, corpus: &[(String, Vec<u8>)], synth:
         ex.count(&format!("fields-mutants:{}", f.table));
         let label = || format!("font={} mut=field[{}@{}:u{}={:#x}]", job.font, f.path, f.pos, 8 * f.width, job.val);
         let g = if job.all_groups { Groups::ALL } else { Groups::for_table(f.table) };
-        exercise_groups(ex, &label, &b, true, g);
+        // thorough tier: count-like fields run the full size / location grid
+        exercise_groups(ex, &label, &b, !(job.all_groups && f.class == 0), g);
     });
     ex.absorb(done);
     format!(
